@@ -60,6 +60,60 @@ type fCase struct {
 	FailWith  string `json:"failwith"`
 	// Conc > 0 (kind sub): the concurrent stage, that many calls per goroutine
 	Conc int `json:"conc"`
+	// kind tree: checkers / selects built on each other (parent 0 = the backend; parents come
+	// first), all constructed before any is used; Nodes[i] is the wrapper Ops[i] goes through
+	Tree  []fNode `json:"tree"`
+	Nodes []int   `json:"nodes"`
+}
+
+type fNode struct {
+	Kind   string                       `json:"kind"` // checker | select
+	Parent int                          `json:"parent"`
+	Pol    map[string]map[string]string `json:"pol"`
+	Allow  []string                     `json:"allow"`
+}
+
+// wnode is one wrapper under test with what the harness needs to drive it.
+type wnode struct {
+	value ociregistry.Interface // the wrapper itself (what wrappers built on it are given)
+	ri    *reiter
+	w     *world
+	buf   *bytes.Buffer
+	cons  [][]string // consultations its policy function saw during the current call
+}
+
+func (fr *fRun) mkChecker(n *wnode, inner ociregistry.Interface, kind string, pol map[string]map[string]string, allowed []string) {
+	switch kind {
+	case "checker":
+		n.value = ocifilter.AccessChecker(inner, func(name string, kind ocifilter.AccessKind) error {
+			k, ok := kindNames[kind]
+			if !ok {
+				k = fmt.Sprintf("kind%d", int(kind))
+			}
+			n.cons = append(n.cons, []string{name, k})
+			fr.name(name)
+			id := pol[name][k]
+			if id == "" || id == "ok" {
+				return nil
+			}
+			if e, ok := polErrs[id]; ok {
+				return e
+			}
+			return fmt.Errorf("policy: unknown error identity %q", id)
+		})
+	case "select":
+		allow := map[string]bool{}
+		for _, a := range allowed {
+			allow[a] = true
+		}
+		n.value = ocifilter.Select(inner, func(name string) bool {
+			n.cons = append(n.cons, []string{name, "-"})
+			fr.name(name)
+			return allow[name]
+		})
+	default:
+		panic("unknown wrapper kind " + kind)
+	}
 }
 
 func (c *fCase) UnmarshalJSON(b []byte) error {
@@ -393,48 +447,38 @@ func (fr *fRun) runCase(c fCase, gen ev) {
 		fr.runConc(c, mem)
 		return
 	}
-	cons := [][]string{}
-	var top ociregistry.Interface
+	var nodes []*wnode
 	switch c.Kind {
-	case "checker":
-		top = ocifilter.AccessChecker(sc, func(name string, kind ocifilter.AccessKind) error {
-			k, ok := kindNames[kind]
-			if !ok {
-				k = fmt.Sprintf("kind%d", int(kind))
+	case "checker", "select":
+		n := &wnode{}
+		fr.mkChecker(n, sc, c.Kind, c.Pol, c.Allow)
+		nodes = append(nodes, n)
+	case "tree":
+		for _, t := range c.Tree {
+			n := &wnode{}
+			var inner ociregistry.Interface = sc
+			if t.Parent > 0 {
+				inner = nodes[t.Parent-1].value
 			}
-			cons = append(cons, []string{name, k})
-			fr.name(name)
-			id := c.Pol[name][k]
-			if id == "" || id == "ok" {
-				return nil
-			}
-			if e, ok := polErrs[id]; ok {
-				return e
-			}
-			return fmt.Errorf("policy: unknown error identity %q", id)
-		})
-	case "select":
-		allow := map[string]bool{}
-		for _, a := range c.Allow {
-			allow[a] = true
+			fr.mkChecker(n, inner, t.Kind, t.Pol, t.Allow)
+			nodes = append(nodes, n)
 		}
-		top = ocifilter.Select(sc, func(name string) bool {
-			cons = append(cons, []string{name, "-"})
-			fr.name(name)
-			return allow[name]
-		})
 	case "sub":
-		top = sc
+		n := &wnode{value: sc}
 		for _, p := range fr.chain {
-			top = ocifilter.Sub(top, p)
+			n.value = ocifilter.Sub(n.value, p)
 		}
+		nodes = append(nodes, n)
 	default:
 		panic("unknown kind " + c.Kind)
 	}
-	var wbuf, bbuf bytes.Buffer
-	ri := &reiter{Interface: top, cat: fr.cat}
-	top = ri
-	ww := &world{cat: fr.cat, top: top, writers: map[string]BlobWriterT{}, ids: map[string]string{}, out: json.NewEncoder(&wbuf)}
+	// every wrapper exists before any of them is used
+	for _, n := range nodes {
+		n.buf = &bytes.Buffer{}
+		n.ri = &reiter{Interface: n.value, cat: fr.cat}
+		n.w = &world{cat: fr.cat, top: n.ri, writers: map[string]BlobWriterT{}, ids: map[string]string{}, out: json.NewEncoder(n.buf)}
+	}
+	var bbuf bytes.Buffer
 	wb := &world{cat: fr.back, top: mem, writers: map[string]BlobWriterT{}, ids: map[string]string{}, out: json.NewEncoder(&bbuf)}
 	wb.snapAll = []ociregistry.Interface{mem}
 
@@ -454,7 +498,7 @@ func (fr *fRun) runCase(c fCase, gen ev) {
 	if chain == nil {
 		chain = []string{}
 	}
-	fr.write(ev{"op": "reset", "kind": c.Kind, "imm": c.Imm, "pol": pol, "allow": allow, "chain": chain, "failafter": c.FailAfter, "failwith": c.FailWith, "case": cm})
+	fr.write(ev{"op": "reset", "kind": c.Kind, "imm": c.Imm, "pol": pol, "allow": allow, "chain": chain, "failafter": c.FailAfter, "failwith": c.FailWith, "tree": treeEv(c.Tree), "case": cm})
 	fr.perKind[c.Kind]++
 
 	// what the backend holds beforehand: written directly, not through the wrapper
@@ -481,17 +525,46 @@ func (fr *fRun) runCase(c fCase, gen ev) {
 			s = c.Scopes[i]
 		}
 		cctx := s.apply(ctx)
-		cons = cons[:0]
+		ni := 1
+		if i < len(c.Nodes) {
+			ni = c.Nodes[i]
+		}
+		nd := nodes[ni-1]
+		for _, n := range nodes {
+			n.cons = nil
+			n.ri.take()
+		}
 		takeAll(rec)
 		sc.take()
-		ri.take()
+		ri, ww, wbuf := nd.ri, nd.w, nd.buf
 		if id, ok := oddID(op.U); ok && op.Op == "Resume" {
 			ww.ids[op.R+"|"+op.U] = id
 		}
 		ww.step(cctx, op)
-		for _, e := range drain(&wbuf) {
+		for _, e := range drain(wbuf) {
 			e["via"] = "wrapper"
-			e["cons"] = append([][]string{}, cons...)
+			e["cons"] = append([][]string{}, nd.cons...)
+			if c.Kind == "tree" {
+				// the consultations level by level, from the wrapper called down to the backend,
+				// and whatever a wrapper that is not on that path was asked
+				e["node"] = ni
+				onPath := map[int]bool{}
+				lcons := [][][]string{}
+				for k := ni; k > 0; k = c.Tree[k-1].Parent {
+					onPath[k] = true
+					lcons = append(lcons, append([][]string{}, nodes[k-1].cons...))
+				}
+				e["lcons"] = lcons
+				off := [][]string{}
+				for k, n := range nodes {
+					if !onPath[k+1] {
+						for _, q := range n.cons {
+							off = append(off, []string{fmt.Sprint(k + 1), q[0], q[1]})
+						}
+					}
+				}
+				e["offpath"] = off
+			}
 			calls := takeAll(rec)
 			for _, b := range calls {
 				for _, f := range []string{"r", "from"} {
@@ -602,7 +675,7 @@ func (fr *fRun) runConc(c fCase, mem ociregistry.Interface) {
 	json.Unmarshal(cj, &cm)
 	stripNulls(cm)
 	fr.write(ev{"op": "reset", "kind": "sub", "imm": false, "pol": ev{}, "allow": []string{}, "chain": fr.chain,
-		"failafter": -1, "failwith": "", "case": cm})
+		"failafter": -1, "failwith": "", "tree": []ev{}, "case": cm})
 	fr.perKind["conc"]++
 	scopes := make([]ev, goroutines)
 	ctxs := make([]context.Context, goroutines)
@@ -663,6 +736,60 @@ func (fr *fRun) runConc(c fCase, mem ociregistry.Interface) {
 	for p := range panics {
 		fr.write(ev{"op": "panic", "inop": "concurrent stage", "panic": p})
 	}
+}
+
+func sameOp(a, b Op) bool {
+	ja, _ := json.Marshal(a)
+	jb, _ := json.Marshal(b)
+	return string(ja) == string(jb)
+}
+
+func treeEv(t []fNode) []ev {
+	out := []ev{}
+	for _, n := range t {
+		pol := n.Pol
+		if pol == nil {
+			pol = map[string]map[string]string{}
+		}
+		allow := n.Allow
+		if allow == nil {
+			allow = []string{}
+		}
+		out = append(out, ev{"kind": n.Kind, "parent": n.Parent, "pol": pol, "allow": allow})
+	}
+	return out
+}
+
+// randTree draws wrappers built on each other: chains up to depth 4, with several wrappers
+// built on the same inner one.
+func randTree(rnd *rand.Rand, names []string) []fNode {
+	var t []fNode
+	add := func(parent int) int {
+		n := fNode{Parent: parent, Kind: []string{"checker", "select"}[rnd.Intn(2)]}
+		if n.Kind == "checker" {
+			n.Pol = randPolicy(rnd, names, polErrIDs[:1+rnd.Intn(len(polErrIDs))])
+		} else {
+			for _, r := range append([]string{"*"}, names...) {
+				if rnd.Intn(3) != 0 {
+					n.Allow = append(n.Allow, r)
+				}
+			}
+		}
+		t = append(t, n)
+		return len(t)
+	}
+	depth := rnd.Intn(4) // a chain first ...
+	last := 0
+	for i := 0; i < depth; i++ {
+		last = add(last)
+	}
+	for i := 2 + rnd.Intn(2); i > 0; i-- { // ... then siblings on its top
+		add(last)
+	}
+	for i := rnd.Intn(3); i > 0; i-- { // and a few more anywhere
+		add(rnd.Intn(len(t) + 1))
+	}
+	return t
 }
 
 // fix gives an event every field the specification reads, each of one type, and notes its names.
@@ -1062,7 +1189,7 @@ func filterCmd(args []string) error {
 				c.Scope = randScope(rnd, back0.Repos, "x", nil)
 			}
 			c.FailAfter = -1
-			if k != "sub" && rnd.Intn(4) == 0 {
+			if k != "sub" && k != "tree" && rnd.Intn(4) == 0 {
 				c.FailAfter = rnd.Intn(4)
 				c.FailWith = append([]string{""}, back0.Repos...)[rnd.Intn(len(back0.Repos)+1)]
 			}
@@ -1070,6 +1197,15 @@ func filterCmd(args []string) error {
 			case "checker":
 				ids := polErrIDs[:1+rnd.Intn(len(polErrIDs))]
 				c.Pol = randPolicy(rnd, back0.Repos, ids)
+			case "tree":
+				c.Tree = randTree(rnd, back0.Repos)
+				cur := 1 + rnd.Intn(len(c.Tree))
+				for range ops {
+					if rnd.Intn(10) < 3 {
+						cur = 1 + rnd.Intn(len(c.Tree))
+					}
+					c.Nodes = append(c.Nodes, cur)
+				}
 			case "select":
 				for _, r := range append([]string{"*"}, back0.Repos...) {
 					if rnd.Intn(2) == 0 {
@@ -1077,6 +1213,11 @@ func filterCmd(args []string) error {
 					}
 				}
 			case "sub":
+				if rnd.Intn(4) == 0 {
+					// the backend's listing breaks off, handing over some name with the error
+					c.FailAfter = rnd.Intn(5)
+					c.FailWith = append([]string{"", *prefix + "/" + cat.Repos[0]}, outside...)[rnd.Intn(len(outside)+2)]
+				}
 				// interleave calls with hostile names, and give every call a scope of its own
 				var mixed []Op
 				fresh := 0
@@ -1107,6 +1248,22 @@ func filterCmd(args []string) error {
 						withOdd = append(withOdd, Op{Op: "Write", R: r, U: u, Data: []int{7, 0}}, Op{Op: "Commit", R: r, U: u, DD: "b2"})
 					}
 				}
+			}
+			if len(c.Nodes) > 0 {
+				// an inserted call goes through the wrapper of the call before it
+				var nn []int
+				j := 0
+				for _, op := range withOdd {
+					if j < len(ops) && sameOp(op, ops[j]) {
+						nn = append(nn, c.Nodes[j])
+						j++
+					} else if len(nn) > 0 {
+						nn = append(nn, nn[len(nn)-1])
+					} else {
+						nn = append(nn, c.Nodes[0])
+					}
+				}
+				c.Nodes = nn
 			}
 			if len(c.Scopes) > 0 {
 				for len(c.Scopes) < len(withOdd) {
